@@ -3,7 +3,7 @@
    Histories as in C14.v (every sequence of AddBlock calls the node can make, any tree, any best choices). *)
 From Coq Require Import List NArith Bool Lia.
 From Verif Require Import Chain.Model Chain.Proofs Chain.ProofsWalk Chain.ProofsSys Chain.ProofsTx Chain.ProofsAccept
-  Chain.ProofsChainInv Chain.Examples.
+  Chain.ProofsChainInv Chain.ProofsChainDep Chain.Examples.
 Import ListNotations.
 Open Scope N_scope.
 
@@ -58,7 +58,7 @@ Section C09.
                        (reachable_wf_txi _ _ _ _ _ Hg R) (reachable_conf_inj _ _ _ _ _ Hg R) Hgp h x).
   Qed.
 
-  (* 5. PARTIAL (induction step of accepted_chain_inv for at-most-once / tag / window): a block accepted by the
+  (* 5. the induction step of accepted_chain_inv for one accepted block (at-most-once / tag / window): a block accepted by the
         body and verify rules on top of a parent chain that respects the window rule repeats no id, carries no tx
         already on the parent's chain, and every tx has the chain tag and sits inside [ref, ref + expiration] *)
   Theorem accepted_block_step_partial r b : reachable g gp tag adm r ->
@@ -87,21 +87,17 @@ Theorem accepted_chain_inv g gp tag (U : txrec -> Prop) :
     (forall a s b, anc r h a -> get_block r a = Some (s, b) -> NoDup (map tx_id (b_txs b))).
 Proof. intros Uinj Hg Hgp r R h Sh. exact (accepted_chain_ok g gp tag U Uinj Hg Hgp r R h Sh). Qed.
 
-(* The dependency clause of the first sentence is NOT yet proved at chain level (kept as a statement): the
-   dependency of every included tx occurs earlier on the same chain and did not revert.  The rule is in the model
-   (verify_loop: found through `processed` or GetTransactionMeta on the parent's chain, and not reverted) and
-   get_tx_meta_on_chain says what a found meta denotes; missing is the induction that combines them. *)
-Definition tx_at (r : repo) (a : N) (i : nat) (t : txrec) (rc : receipt) : Prop :=
-  exists s b, get_block r a = Some (s, b) /\ nth_error (b_txs b) i = Some t /\ nth_error (b_rcs b) i = Some rc.
-Definition accepted_chain_dependency_statement : Prop :=
-  forall (g gp tag : N) (U : txrec -> Prop),
-    num_of g = 0 -> num_of gp = max_u32 ->
-    (forall t1 t2, U t1 -> U t2 -> tx_id t1 = tx_id t2 -> t1 = t2) ->
-    forall r, reachable g gp tag (accepted U) r ->
-    forall h, stored r h ->
-      (forall a i t rc d, anc r h a -> tx_at r a i t rc -> tx_dep t = Some d ->
-         exists a' i' t' rc', anc r h a' /\ tx_at r a' i' t' rc' /\ tx_id t' = d /\ rc_rev rc' = false /\
-                              (num_of a' < num_of a \/ (a' = a /\ (i' < i)%nat))).
+(* 7. C09 first sentence, dependency clause: on the same histories, for every chain from every head, the dependency of
+      every included tx occurs earlier on that same chain — in a lower block, or at an earlier position of the same
+      block — and the receipt at that position is not reverted.  (Induction over the history; the step combines the
+      verify loop's `processed` bookkeeping, by absolute position in the block, with get_tx_meta_on_chain.) *)
+Theorem accepted_chain_dependency g gp tag (U : txrec -> Prop) :
+  num_of g = 0 -> num_of gp = max_u32 ->
+  forall r, reachable g gp tag (accepted U) r -> forall h, stored r h ->
+    forall a i t rc d, anc r h a -> tx_at r a i t rc -> tx_dep t = Some d ->
+      exists a' i' t' rc', anc r h a' /\ tx_at r a' i' t' rc' /\ tx_id t' = d /\ rc_rev rc' = false /\
+                           (num_of a' < num_of a \/ (a' = a /\ (i' < i)%nat)).
+Proof. intros Hg Hgp r R h Sh. exact (accepted_chain_dep_ok g gp tag U Hg Hgp r R h Sh). Qed.
 
 (* non-vacuity: tx 1001 sits on both siblings at height 2; each head finds its own copy, by both paths *)
 Example ex_c09 :
@@ -129,9 +125,15 @@ Proof.
   - apply ex_reachable; (split; [vm_compute; reflexivity | cbn; unfold ex_U; intros t H; intuition]).
 Qed.
 
+(* non-vacuity of the dependency clause: tx 1002 (depends on 1001) sits at position 1 of block (2,2), its dependency at position 0 *)
+Example ex_c09_dep :
+  tx_at ex_r4 (bid 2 2) 1 ex_t2 (ex_rc true) /\ tx_dep ex_t2 = Some 1001 /\ tx_at ex_r4 (bid 2 2) 0 ex_t1 (ex_rc false).
+Proof. repeat split; try (eexists; eexists; vm_compute; repeat split). Qed.
+
 Print Assumptions conflicts_identify.
 Print Assumptions has_transaction_paths.
 Print Assumptions has_tx_paths_agree.
 Print Assumptions get_tx_meta_on_chain.
 Print Assumptions accepted_block_step_partial.
 Print Assumptions accepted_chain_inv.
+Print Assumptions accepted_chain_dependency.
